@@ -26,6 +26,7 @@ from collections import deque
 
 from harness import tlc, graph
 from harness.tlaval import seq
+from harness import svskit
 from harness.svskit import Scenario, NOSEQ, NOID, ROOTID
 
 NODES3 = ['self', 'n1', 'n2']
@@ -185,6 +186,90 @@ def nontrivial(evs):
     return False
 
 
+# ------------------------------------------------------------------ two instances in one process
+
+def expected_init(nodes, init, t0):
+    """projection of a fresh, started instance (Svs!InitWith)"""
+    local = {n: 0 for n in nodes}
+    local[nodes[0]] = init
+    return {'local': local, 'out': [], 'missed': 0, 'state': 'Steady', 'timer': t0, 'seq': init}
+
+
+class PairRun:
+    """Two SvsInst objects of one Python process, each recorded as its own execution of Svs:
+    `first` is created first and has state before `main` is created (C18 holds per instance: what one
+    instance hears or publishes must not show in the other).
+      live = True   first is a second sync group (other prefix, other own name, same peers) sharing the
+                    loop, application and face with main; its timers never fire; events interleave
+      live = False  first is an earlier instance of the same group that was stopped before main starts"""
+
+    def __init__(self, nodes, sup, sync, rstep, live, first_cfg, main_cfg):
+        self.nodes, self.sup, self.sync, self.rstep, self.live = nodes, sup, sync, rstep, live
+        self.first_cfg, self.main_cfg = first_cfg, main_cfg
+        self.base = int(round(sync * 0.9))
+        self.first = self.main = None
+        self.schedule = []
+        self.main_after = None
+        self.recs = {'first': {'cfg': first_cfg, 'ev': []}, 'main': {'cfg': main_cfg, 'ev': []}}
+        self.init_diff = None
+        self.bg = []
+        if first_cfg is not None:
+            if live:
+                self.first = Scenario(nodes, init_seq=first_cfg['init'], rstep=rstep, world=svskit.SIBLING, quiet=True)
+            else:
+                self.first = Scenario(nodes, init_seq=first_cfg['init'], sup_ticks=sup, sync_ticks=sync, rstep=rstep,
+                                      j0=first_cfg['t0'] - self.base)
+
+    def start_main(self):
+        self.main_after = len(self.schedule)
+        if self.first is not None and not self.live:
+            self.bg += self.first.errors()
+            self.first.close()
+            self.first = None
+        cfg = self.main_cfg
+        self.main = Scenario(self.nodes, init_seq=cfg['init'], sup_ticks=self.sup, sync_ticks=self.sync,
+                             rstep=self.rstep, j0=cfg['t0'] - self.base, host=self.first if self.live else None)
+        obs = self.main.post()
+        d = diff(obs, expected_init(self.nodes, cfg['init'], cfg['t0']), C18_FIELDS + SYNC_FIELDS)
+        if d:
+            self.init_diff = (d, obs)
+        return obs
+
+    def step(self, who, ev):
+        sc = self.first if who == 'first' else self.main
+        ev = {k: v for k, v in ev.items() if k != 'post'}
+        post = sc.apply(ev)
+        if ev['a'] == 'RecvSV' and post['missed'] == 0:
+            ev['r'] = 0                   # the callback did not run: the planned reaction is no part of the history
+        self.schedule.append([who, dict(ev)])
+        ev['post'] = post
+        self.recs[who]['ev'].append(ev)
+        return post
+
+    def close(self):
+        for sc in (self.main, self.first):          # the guest first, the host last
+            if sc is not None:
+                try:
+                    self.bg += sc.errors()
+                finally:
+                    sc.close()
+        self.main = self.first = None
+
+    def obj(self, which, at):
+        return {'kind': 'pair', 'nodes': self.nodes, 'sup': self.sup, 'sync': self.sync, 'rstep': self.rstep,
+                'live': self.live, 'first_cfg': self.first_cfg, 'main_cfg': self.main_cfg,
+                'main_after': self.main_after, 'schedule': self.schedule, 'which': which, 'at': at}
+
+    def report_init(self, ctx):
+        if self.init_diff:
+            d, obs = self.init_diff
+            finding(ctx, 'C18/SvsInst/Init/%s' % '+'.join(d),
+                    'a fresh instance, created after another instance of the process had state, does not start in '
+                    'the initial state (fields %s): %s' % ('+'.join(d), json.dumps(obs)), self.obj('main', 0))
+            return True
+        return False
+
+
 # ------------------------------------------------------------------ stage B
 
 class Cover:
@@ -206,6 +291,8 @@ class Cover:
         self.paths = 0
         self.new_pairs = 0            # (state, stimulus) pairs first attempted by the last path
         self.dev_hits = {}
+        self.prev = None              # (cfg, events) of the previous path: the instance that lived before this one
+        self.init_bad = 0
         self.stims = {}               # state -> {stim key: (event, [edge index])}
         self._usable = {}
         self.todo = {}                # state -> set of stim keys not attempted
@@ -262,8 +349,20 @@ class Cover:
         try:
             obs = sc.post()
             want = proj_state(st0)
-            if diff(obs, want, C18_FIELDS + SYNC_FIELDS):
-                raise tlc.MachineryError('initial state of the instance %r differs from the spec %r' % (obs, want))
+            d0 = diff(obs, want, C18_FIELDS + SYNC_FIELDS)
+            if d0:
+                # anything the library does differently is a finding, not a harness problem: here a fresh
+                # instance does not start in Init (typically state left behind by the previous instance)
+                self.init_bad += 1
+                self.new_pairs = 0
+                pr = PairRun(self.nodes, self.sup, self.sync, 32768, False, None, None)
+                pr.first_cfg = self.prev[0] if self.prev else None
+                pr.main_cfg = {'init': st0['selfSeq'], 't0': st0['timer']}
+                pr.schedule = [['first', {k: v for k, v in e.items() if k != 'post'}] for e in (self.prev[1] if self.prev else [])]
+                pr.main_after = len(pr.schedule)
+                pr.init_diff = (d0, obs)
+                pr.report_init(ctx)
+                return [], sc.errors()
             # the hidden part of the state (heard, agg) can make two successors look alike: keep
             # every graph state that explains the observations so far
             curs = {init}
@@ -316,6 +415,7 @@ class Cover:
         finally:
             sc.close()
         self.paths += 1
+        self.prev = ({'init': st0['selfSeq'], 't0': st0['timer']}, evs)
         return evs, bg
 
 
@@ -339,7 +439,8 @@ def stage_b(ctx):
         # MAX_SUSPECTS unexplained executions (a broken tree fails everywhere for a few reasons) and after
         # 4 steps per pair (a clean tree needs about 2)
         max_steps = 4 * cov.n_stimuli if budget is None else budget
-        while idle < 2 * len(inits) + 2 and cov.steps < max_steps and len(cov.suspects) < MAX_SUSPECTS:
+        while (idle < 2 * len(inits) + 2 and cov.steps < max_steps and len(cov.suspects) < MAX_SUSPECTS
+               and cov.init_bad < 3):
             init = inits[cov.paths % len(inits)]
             evs, bg = cov.run_path(init, 60)
             idle = idle + 1 if cov.new_pairs == 0 else 0
@@ -366,6 +467,8 @@ def stage_b(ctx):
                                               'edges_taken': len(cov.covered)})
         if bgs:
             ctx.note('B: background exceptions in the loop (not judged by C18): %s' % sorted(set(bgs))[:3])
+        if cov.init_bad:
+            ctx.note('B: stopped: %d fresh instances did not start in the initial state' % cov.init_bad)
         if len(cov.suspects) >= MAX_SUSPECTS:
             ctx.note('B: stopped after %d unexplained executions' % len(cov.suspects))
         if cov.suspects:
@@ -397,7 +500,7 @@ def _validate(ctx, recs, idx, nodes, dev, name, maxseq, env=None, count=True):
     return r, {int(a): int(b) for a, b in rejected}
 
 
-def judge(ctx, recs, nodes, sup, sync, rstep, name, maxseq=24, report=True):
+def judge(ctx, recs, nodes, sup, sync, rstep, name, maxseq=24, report=True, objs=None):
     """Validate recorded executions with SvsTrace (Mode open).
     Pass 1, deviations off: an execution that is accepted is a behaviour of the specification.
     Pass 2, only for the rest, deviations on: the first event no specification step explains is
@@ -475,7 +578,7 @@ def judge(ctx, recs, nodes, sup, sync, rstep, name, maxseq=24, report=True):
                 out.append({'trace': i, 'at': l, 'dev': False, 'sig': sig, 'what': what})
     if report:
         for f in out:
-            obj = f.get('obj') or {'kind': 'trace', 'nodes': nodes, 'sup': sup, 'sync': sync, 'rstep': rstep,
+            obj = f.get('obj') or (objs[f['trace']](f['at']) if objs else None) or {'kind': 'trace', 'nodes': nodes, 'sup': sup, 'sync': sync, 'rstep': rstep,
                                    'at': f['at'], 'earlier': f.get('earlier', 0), 'rec': {'cfg': recs[f['trace']]['cfg'],
                                                           'ev': recs[f['trace']]['ev'][:max(f['at'], 1)]}}
             finding(ctx, f['sig'], f['what'], obj)
@@ -523,58 +626,64 @@ def random_packet(rng, nodes, local, selfseq):
     return {'k': 'sv', 'es': es}
 
 
+def random_event(rng, nodes, cur, njit, busy, timed=True):
+    x = rng.random()
+    j = rng.randrange(njit)
+    if x < busy or (not timed and x < 0.75):
+        return {'a': 'RecvSV', 'p': random_packet(rng, nodes, cur['local'], cur['seq']), 'j': j,
+                'r': rng.choice([0, 0, 0, 1, 1, 2]) if cur['seq'] + 2 <= MAXSEQ_C else 0}
+    if (x < busy + 0.08 or not timed) and cur['seq'] < MAXSEQ_C:
+        return {'a': 'Publish', 'n': min(rng.choice([1, 1, 1, 2, 3]), MAXSEQ_C - cur['seq']), 'j': j}
+    if not timed:
+        return {'a': 'RecvSV', 'p': random_packet(rng, nodes, cur['local'], cur['seq']), 'j': j, 'r': 0}
+    if cur['timer'] == 0:
+        return {'a': 'TimerFire', 'j': j}
+    t = cur['timer']
+    return {'a': 'Tick', 'd': t if rng.random() < 0.5 else rng.randint(1, t)}
+
+
 def record_random(rng, nodes, n_events, sup, sync, rstep, njit):
-    init = rng.choice([0, 0, 0, rng.randint(1, 5)])
-    j0 = rng.randrange(njit)
-    sc = Scenario(nodes, init_seq=init, sup_ticks=sup, sync_ticks=sync, rstep=rstep, j0=j0)
-    evs = []
+    """one process, two sync groups: the sibling instance gets state first, then the instance under the
+    random history is created; sibling events (vectors heard, publications) are interleaved"""
+    first_cfg = {'init': rng.choice([0, 2, 5]), 't0': svskit.QUIET_TIMER}
+    main_cfg = {'init': rng.choice([0, 0, 0, rng.randint(1, 5)]), 't0': int(round(sync * 0.9)) + rng.randrange(njit)}
+    pr = PairRun(nodes, sup, sync, rstep, True, first_cfg, main_cfg)
     try:
-        p0 = sc.post()
-        cfg = {'init': init, 't0': p0['timer']}
-        cur = p0
+        sib = pr.first.post()
+        for _ in range(rng.randint(2, 4)):
+            sib = pr.step('first', random_event(rng, nodes, sib, njit, 0.0, timed=False))
+        cur = pr.start_main()
         busy = rng.choice([0.35, 0.5, 0.7])        # how chatty the neighbours are
-        while len(evs) < n_events:
-            x = rng.random()
-            j = rng.randrange(njit)
-            if x < busy:
-                ev = {'a': 'RecvSV', 'p': random_packet(rng, nodes, cur['local'], cur['seq']), 'j': j,
-                      'r': rng.choice([0, 0, 0, 1, 1, 2]) if cur['seq'] + 2 <= MAXSEQ_C else 0}
-            elif x < busy + 0.08 and cur['seq'] < MAXSEQ_C:
-                ev = {'a': 'Publish', 'n': rng.choice([1, 1, 1, 2, 3]), 'j': j}
-                ev['n'] = min(ev['n'], MAXSEQ_C - cur['seq'])
-            elif cur['timer'] == 0:
-                ev = {'a': 'TimerFire', 'j': j}
+        while len(pr.recs['main']['ev']) < n_events:
+            if rng.random() < 0.06:
+                sib = pr.step('first', random_event(rng, nodes, sib, njit, 0.0, timed=False))
             else:
-                t = cur['timer']
-                d = t if rng.random() < 0.5 else rng.randint(1, t)
-                ev = {'a': 'Tick', 'd': d}
-            cur = sc.apply(ev)
-            if ev['a'] == 'RecvSV' and cur['missed'] == 0:
-                ev['r'] = 0               # the callback did not run: the planned reaction is no part of the history
-            ev['post'] = cur
-            evs.append(ev)
-        bg = sc.errors()
+                cur = pr.step('main', random_event(rng, nodes, cur, njit, busy))
     finally:
-        sc.close()
-    return {'cfg': cfg, 'ev': evs}, bg
+        pr.close()
+    return pr
 
 
 def stage_c(ctx):
     n = ctx.pick(60, 1200)
     sup, sync, rstep, njit = 8, 40, 8192, 8
-    recs, bgs = [], []
+    recs, bgs, objs, n_init = [], [], [], 0
     for i in range(n):
-        rec, bg = record_random(ctx.rng, NODES5, ctx.rng.randint(90, 110), sup, sync, rstep, njit)
-        recs.append(rec)
-        bgs += bg
+        pr = record_random(ctx.rng, NODES5, ctx.rng.randint(90, 110), sup, sync, rstep, njit)
+        n_init += bool(pr.report_init(ctx))
+        for which in ('main', 'first'):
+            recs.append(pr.recs[which])
+            objs.append(lambda at, pr=pr, which=which: pr.obj(which, at))
+        bgs += pr.bg
+        rec = pr.recs['main']
         if nontrivial(rec['ev']):
             ctx.nt('C:' + hashlib.sha1(json.dumps(rec, sort_keys=True).encode()).hexdigest())
     ctx.sample({'kind': 'C-trace', 'cfg': recs[0]['cfg'],
                 'events': [{k: v for k, v in e.items() if k != 'post'} for e in recs[0]['ev'][:10]]})
-    batch = 250
+    batch = 500
     total = {'dev': 0, 'rej': 0}
     for b in range(0, len(recs), batch):
-        fnd = judge(ctx, recs[b:b + batch], NODES5, sup, sync, rstep, 'c18-c')
+        fnd = judge(ctx, recs[b:b + batch], NODES5, sup, sync, rstep, 'c18-c', objs=objs[b:b + batch])
         total['dev'] += sum(1 for f in fnd if f['dev'])
         total['rej'] += LAST_JUDGE['unexplained']
         if total['rej'] >= MAX_DIAG and b + batch < len(recs):
@@ -582,7 +691,9 @@ def stage_c(ctx):
             break
     ctx.traces += len(recs)
     ctx.evaluations += sum(len(r['ev']) for r in recs)
-    ctx.note('C: %d executions, %d events; steps explained only by a named deviation: %d; rejected executions: %d' % (
+    if n_init:
+        ctx.note('C: %d fresh instances did not start in the initial state' % n_init)
+    ctx.note('C: %d executions (two instances per process), %d events; steps explained only by a named deviation: %d; rejected executions: %d' % (
         len(recs), sum(len(r['ev']) for r in recs), total['dev'], total['rej']))
     if bgs:
         ctx.note('C: background exceptions in the loop (not judged by C18): %s' % sorted(set(bgs))[:3])
@@ -612,6 +723,8 @@ def run(ctx):
 def replay(ctx, path):
     with open(path) as f:
         obj = json.load(f)
+    if obj.get('kind') == 'pair':
+        return replay_pair(ctx, obj)
     if obj.get('kind') != 'trace':
         print(json.dumps(obj, indent=1)[:6000])
         return 0
@@ -637,3 +750,33 @@ def replay(ctx, path):
     if not fnd:
         print('not reproduced: the re-executed history is a behaviour of Svs')
     return 1 if fnd else 0
+
+
+def replay_pair(ctx, obj):
+    pr = PairRun(obj['nodes'], obj['sup'], obj['sync'], obj['rstep'], obj['live'], obj['first_cfg'], obj['main_cfg'])
+    try:
+        for k, (who, ev) in enumerate(obj['schedule'] + [['end', None]]):
+            if k == obj['main_after']:
+                p0 = pr.start_main()
+                print('main      created -> %s' % json.dumps(p0))
+            if who == 'end':
+                break
+            post = pr.step(who, ev)
+            print('%-5s %-9s %s -> %s' % (who, ev['a'], json.dumps({x: y for x, y in ev.items() if x != 'a'}),
+                                          json.dumps(post)))
+    finally:
+        pr.close()
+    found = 0
+    if pr.init_diff:
+        print('REPRODUCED: C18/SvsInst/Init/%s\n  the fresh instance starts as %s' % ('+'.join(pr.init_diff[0]),
+                                                                                   json.dumps(pr.init_diff[1])))
+        found += 1
+    names = [w for w in ('main', 'first') if pr.recs[w]['cfg'] is not None]
+    fnd = judge(ctx, [pr.recs[w] for w in names], obj['nodes'], obj['sup'], obj['sync'], obj['rstep'],
+                'c18-replay', report=False)
+    for f in fnd:
+        print('REPRODUCED in the execution of `%s` at event %d: %s\n  %s' % (names[f['trace']], f['at'], f['sig'], f['what']))
+    found += len(fnd)
+    if not found:
+        print('not reproduced: both re-executed histories are behaviours of Svs')
+    return 1 if found else 0
